@@ -6,7 +6,7 @@ set -u
 D=$(cd "$1" && pwd); S=${2:-/tmp/replay}
 demo=$(ls $D/demo_*.rs | head -1); name=$(basename $demo .rs)
 export CARGO_NET_OFFLINE=true CARGO_TARGET_DIR=$S/target RUST_BACKTRACE=0 RUST_LOG=off
-mkdir -p $S; rsync -a --delete /repo/src/ $S/src/; rsync -a /repo/Cargo.toml /repo/Cargo.lock $S/; mkdir -p $S/tests
+mkdir -p $S; rsync -rlc --delete /repo/src/ $S/src/; rsync -a /repo/Cargo.toml /repo/Cargo.lock $S/; mkdir -p $S/tests; touch $S/src/lib.rs
 rsync -a /repo/tests/ $S/tests/
 cp $demo $S/tests/$name.rs
 cd $S
@@ -20,6 +20,6 @@ grep -E "^test result|panicked" $S/$name.mut.log | head -5
 echo "--- suite with the change"
 timeout 1800 cargo test --offline --lib --test test_server --test test_server_both --test test_server_v5 --no-fail-fast >$S/$name.suite.log 2>&1; r2=$?
 grep -E "^test result" $S/$name.suite.log
-rsync -a --delete /repo/src/ $S/src/; rm -f $S/tests/$name.rs
+rsync -rlc --delete /repo/src/ $S/src/; touch $S/src/lib.rs; rm -f $S/tests/$name.rs
 echo "RESULT $name: demo_orig_rc=$r0 demo_mut_rc=$r1 suite_mut_rc=$r2"
 [ $r0 -eq 0 ] && [ $r1 -ne 0 ] && [ $r2 -eq 0 ] && echo CONFIRMED || echo NOT-CONFIRMED
